@@ -5,12 +5,22 @@ current /repo/internal/locking/workspace_locker.go, produced at check time by ha
 substituted through the build overlay only).  Every file-system call of the locker blocks on a
 token from this controller, so a schedule of the model (Lock.v) is replayed step by step; after
 every step the lock file's content class, every process's pc (the call it is blocked at) and
-the set of processes past Lock() are compared with the extracted model.
+the set of processes past Lock() are compared with the extracted model.  Besides "next call" and
+SIGKILL a schedule can cancel the context of a process that waits for its timer (token a<p>, the
+model's Cancel p, enabled at Waiting only): Lock must then return (GAVEUP) without another call.
+
+State letters of a real process: I C R P X (blocked before os.OpenFile / file.Write / os.ReadFile /
+processRunning / os.Remove), W waiting for the timer, G gave up (Lock returned after a cancel),
+H past Lock(), D unlocked, Z killed, E error exit, ? unknown call.
 
 Oracles on the implementation (model-free):
   mutex     at every step at most one process is between Lock() returning nil and Unlock()
   liveness  after the holder unlocked / everybody else died, a contender run alone reaches HELD
             (covers: a waiter proceeds, a stale or garbage lock file never blocks)
+  cancel    a process that gave up never removed / changed the lock file: content class, inode
+            number and mtime of the lock file are the same before and after the cancel step
+  unlock    while the run agrees with the model and the model says the lock file is there, the
+            holder's Unlock() succeeds
 A mutex failure is a KNOWN finding only if (a) the real run agreed with the model on every step
 up to the failure and (b) the first of the two boolean guards of Lock.v that fired on that prefix
 (read_before_write / remove_of_unexamined_inode, evaluated by the model driver) has its class
@@ -116,10 +126,11 @@ class Contender:
             os.close(c2p_w)
         self.r, self.w, self.buf = c2p_r, p2c_w, b""
         self.pid = self.proc.pid
-        self.state = "?"      # I C R P X W H D Z E
+        self.state = "?"      # I C R P X W G H D Z E
         self.label = ""
         self.dead = False
         self.ever_held = False
+        self.cancel_calls = []    # calls announced after a cancel instead of GAVEUP
         with _live_lock:
             _live.add(self)
 
@@ -160,6 +171,8 @@ class Contender:
             self.ever_held = True
         elif f[0] == "DONE":
             self.state = "D"
+        elif f[0] == "GAVEUP":
+            self.state = "G"
         else:
             self.state = "E"
         return msg
@@ -220,11 +233,12 @@ def model_runs(drv, scs):
 
 
 def to_s(ev):
-    return ev if ev[0] == "!" else "s" + ev[1:]
+    return ev if ev[0] in "!a" else "s" + ev[1:]
 
 
-def explore(drv, n, dead, lock, depth, maxcrash):
-    rc, out, err = vlib.run_lines(drv, ["explore\t%d\t%s\t%s\t%d\t%d" % (n, ",".join(map(str, dead)) or "-", lock, depth, maxcrash)])
+def explore(drv, n, dead, lock, depth, maxcrash, maxcancel=0):
+    rc, out, err = vlib.run_lines(drv, ["explore\t%d\t%s\t%s\t%d\t%d\t%d" % (
+        n, ",".join(map(str, dead)) or "-", lock, depth, maxcrash, maxcancel)])
     if rc != 0 or not out or not out[-1].startswith("end\t"):
         raise RuntimeError("explorer failed: %s" % err[-400:])
     res = []
@@ -249,6 +263,15 @@ def real_lock_class(path, pidmap):
         return "garbage"
 
 
+def lock_identity(path, pidmap):
+    """(content class, inode number, mtime) of the lock file; (absent, None, None) if there is none."""
+    try:
+        st = os.stat(path)
+    except FileNotFoundError:
+        return ("absent", None, None)
+    return (real_lock_class(path, pidmap), st.st_ino, st.st_mtime_ns)
+
+
 def want_lock_class(sc, mlock):
     if mlock == "absent":
         return "absent"
@@ -265,7 +288,19 @@ def step_real(c, tok_kind):
             return False
         c.kill()
         return True
-    if c.dead or c.state in ("D", "E", "?", "Z"):
+    if tok_kind == "a":
+        # cancel the context of a waiting process: Lock must return ctx.Err() without another call.
+        # If it announces calls instead, they are noted and let through (the oracles watch what they do).
+        if c.dead or c.state != "W":
+            return False
+        c.send("cancel")
+        c.take()
+        while c.label.startswith("P\t") and len(c.cancel_calls) < 8:
+            c.cancel_calls.append(c.label.split("\t")[1])
+            c.send("go")
+            c.take()
+        return True
+    if c.dead or c.state in ("D", "E", "?", "Z", "G"):
         return False
     if c.state == "W":
         c.send("wake")
@@ -286,13 +321,14 @@ def step_real(c, tok_kind):
 def replay_schedule(binary, sc, obs, errf, solo=None):
     """Replay sc["tokens"] on real processes next to the model's observations obs.
     solo = ordinal that must end up HELD (liveness clause) or None.
-    Returns a dict: steps, agreed (steps compared equal), mismatch, mutex_fail, liveness_fail, trace."""
+    Returns a dict: steps, agreed (steps compared equal), mismatch, mutex_fail, liveness_fail, cancel_fail,
+    unlock_fail, cancels (cancel steps executed), trace."""
     n, dead = sc["n"], set(sc["dead"])
     root = os.path.join(vlib.scratch(), "ws-%d-%d" % (threading.get_ident(), time.time_ns()))
     os.makedirs(root)
     cs, pidmap, trace = {}, {}, []
     res = {"steps": 0, "agreed": 0, "mismatch": None, "mutex_fail": None, "liveness_fail": None, "trace": trace,
-           "unlock_errors": 0}
+           "unlock_errors": 0, "cancel_fail": None, "unlock_fail": None, "cancels": 0}
     try:
         path = None
         for p in range(n):
@@ -353,7 +389,7 @@ def replay_schedule(binary, sc, obs, errf, solo=None):
                 moved_any = False
                 for p in sorted(cs):
                     c = cs[p]
-                    if c.dead or c.state in ("H", "D", "E", "Z", "?"):
+                    if c.dead or c.state in ("H", "D", "E", "Z", "?", "G"):
                         continue
                     step_real(c, "s")
                     moved_any = True
@@ -380,9 +416,26 @@ def replay_schedule(binary, sc, obs, errf, solo=None):
                 continue    # diverged: skip the rest of the explored part, keep the release/solo part
             if res["mismatch"] is not None and p == solo and cs[p].state == "H":
                 continue    # diverged run: the contender already holds, do not let the leftover tokens unlock it
+            before = lock_identity(path, pidmap) if tok[0] == "a" else None
             moved = step_real(cs[p], tok[0])
+            if tok[0] == "a" and moved:
+                # model-free: whoever gives up leaves the lock file alone (nobody else moves during this step)
+                res["cancels"] += 1
+                after = lock_identity(path, pidmap)
+                calls, cs[p].cancel_calls = cs[p].cancel_calls, []
+                if after != before and res["cancel_fail"] is None:
+                    res["cancel_fail"] = {"step": k, "process": p, "lock_file_before": before, "lock_file_after": after,
+                                          "calls_after_cancel": calls, "state_after": cs[p].state, "last": cs[p].label}
+                if (calls or cs[p].state != "G") and res["mismatch"] is None:
+                    res["mismatch"] = {"step": k, "event": tok, "diffs": [
+                        "after 'cancel' the waiting process %d %s; Lock.v: Cancel makes no file-system call and ends in GaveUp" % (
+                            p, ("announced " + ", ".join(calls) + " before it returned") if calls else
+                            "did not return from Lock (state %s, last message %r)" % (cs[p].state, cs[p].label))]}
             if cs[p].label.startswith("DONE\terr"):
                 res["unlock_errors"] += 1
+                mb = obs[k - 1] if k - 1 < len(obs) else None
+                if res["mismatch"] is None and mb is not None and mb["lock"] != "absent" and res["unlock_fail"] is None:
+                    res["unlock_fail"] = {"step": k, "process": p, "error": cs[p].label, "model_lock_file_before": mb["lock"]}
                 cs[p].label = "DONE(err counted)"
             res["steps"] += 1
             if m is not None and m["en"] != moved and res["mismatch"] is None:
@@ -398,7 +451,7 @@ def replay_schedule(binary, sc, obs, errf, solo=None):
             c = cs.get(solo)
             extra = 0
             # only reached by a diverged run: keep running the contender alone, model-free
-            while c is not None and c.state not in ("H", "D", "E", "Z") and res["mismatch"] is not None and extra < 16:
+            while c is not None and c.state not in ("H", "D", "E", "Z", "G") and res["mismatch"] is not None and extra < 16:
                 step_real(c, "s")
                 extra += 1
             # (a diverged run may have let the contender acquire AND release already: that is progress too)
@@ -462,14 +515,15 @@ def sched_key(sc):
 def gen_schedules(drv, tier, rng, stats):
     depth2 = 16    # the 2-contender graphs close at depth 14: this is the whole reachable graph
     configs = []   # (n, dead, model lock, real lock variants, maxcrash)
-    # crash budget 2 contains the smaller ones as subgraphs; 0 and 1 only add alternative paths to the same transitions
+    # crash budget 2 contains the smaller ones as subgraphs; 0 and 1 only add alternative paths to the same transitions.
+    # The budget-2 graphs also contain every Cancel of a waiting contender (two contenders: at most two cancels).
     for mc in ((0, 2) if tier == "quick" else (0, 1, 2)):
         configs.append((2, [], "absent", ["absent"], mc))
         configs.append((2, [], "blank", ["empty", "garbage"], mc))
         configs.append((3, [2], "pid2", ["pid2"], mc))
     pool, states, trans = [], 0, 0
     for n, dead, ml, variants, mc in configs:
-        scheds, st, tr = explore(drv, n, dead, ml, depth2, mc)
+        scheds, st, tr = explore(drv, n, dead, ml, depth2, mc, 2 if mc == 2 else 0)
         if mc == 2:     # the graphs with fewer crashes are subgraphs: count states once
             states += st
             trans += tr
@@ -500,7 +554,7 @@ def gen_schedules(drv, tier, rng, stats):
     if tier != "quick":
         # three live contenders, at most one crash: the whole reachable graph again
         for ml, variants, dead, n in (("absent", ["absent"], [], 3), ("pid3", ["pid3"], [3], 4), ("blank", ["empty", "garbage"], [], 3)):
-            scheds, st, tr = explore(drv, n, dead, ml, 24, 1)    # closes at depth 20: whole graph
+            scheds, st, tr = explore(drv, n, dead, ml, 24, 1, 1)    # closes at depth 20: whole graph (<= 1 crash, <= 1 cancel)
             stats["explorer_states"] += st
             stats["explorer_transitions"] += tr
             for i, s in enumerate(scheds):
@@ -509,22 +563,42 @@ def gen_schedules(drv, tier, rng, stats):
     nrand = 150 if tier == "quick" else 3000
     rnd = []
     for _ in range(nrand):
-        kind = rng.below(4)
-        n, dead, lock = [(3, [], "absent"), (4, [3], "pid3"), (3, [], "empty"), (3, [], "garbage")][kind]
+        kind = rng.below(6)
+        n, dead, lock = [(3, [], "absent"), (4, [3], "pid3"), (3, [], "empty"), (3, [], "garbage"),
+                         (3, [], "absent"), (4, [], "absent")][kind]
         live = [p for p in range(n) if p not in dead]
         toks, crashes = [], 0
+        # kinds 4, 5: process 0 acquires first and mostly keeps the lock while the others contend, wait and are cancelled
+        held_first = kind >= 4
+        if held_first:
+            toks += ["s0", "s0"]
         for _ in range(10 + rng.below(14)):
             p = rng.choice(live)
+            if held_first and p == 0 and not rng.chance(1, 5):
+                p = rng.choice(live[1:])
             if crashes < 2 and rng.chance(1, 14):
                 toks.append("!%d" % p)
                 crashes += 1
             else:
                 toks.append("s%d" % p)
-        rnd.append({"n": n, "dead": dead, "lock": lock, "tokens": toks, "origin": "random 3 contenders"})
+        rnd.append({"n": n, "dead": dead, "lock": lock, "tokens": toks,
+                    "origin": "random %d contenders%s" % (len(live), ", first one holds" if held_first else "")})
     # drop the tokens the model cannot take (process finished or dead): the run is unchanged
+    def drop_disabled():
+        for sc, ob in zip(rnd, model_runs(drv, rnd)):
+            sc["tokens"] = [t for t, o in zip(sc["tokens"], ob[1:]) if o["en"]]
+    drop_disabled()
+    # cancels, mirrored from the model (Cancel p is enabled exactly where next_event is Wake p): in two schedules out of three
+    # cancel a process at one or two of the places where the model has it Waiting; what it can no longer do afterwards is dropped
     for sc, ob in zip(rnd, model_runs(drv, rnd)):
-        sc["tokens"] = [t for t, o in zip(sc["tokens"], ob[1:]) if o["en"]]
-        chosen.append(sc)
+        spots = [(k, p) for k, o in enumerate(ob) for p, c in enumerate(o["pcs"]) if c == "W"]
+        if not spots or rng.chance(1, 3):
+            continue
+        picks = {rng.choice(spots) for _ in range(1 + rng.below(2))}
+        for k, p in sorted(picks, reverse=True):
+            sc["tokens"].insert(k, "a%d" % p)
+    drop_disabled()
+    chosen += rnd
     return chosen
 
 
@@ -541,9 +615,10 @@ def classify(sc, ob, r):
 def replay_record(sc, ob, r):
     return {"schedule": {"n": sc["n"], "dead": sc["dead"], "lock": sc["lock"], "tokens": sc["tokens"], "solo": sc.get("solo")},
             "model_events": [o["ev"] for o in ob[1:]], "origin": sc.get("origin"),
-            "result": {k: r.get(k) for k in ("mismatch", "mutex_fail", "liveness_fail", "protocol_error")},
+            "result": {k: r.get(k) for k in ("mismatch", "mutex_fail", "liveness_fail", "cancel_fail", "unlock_fail", "protocol_error")},
             "trace": r["trace"][-6:], "replay_cmd": "./check C10 --replay <this file>",
-            "how": "tokens s<p> = let process p make its next file-system call, !<p> = SIGKILL p; processes are real OS processes "
+            "how": "tokens s<p> = let process p make its next file-system call (or wake / unlock), !<p> = SIGKILL p, a<p> = cancel the "
+                   "context of p while it waits for its timer (SIGINT/SIGTERM of a build); processes are real OS processes "
                    "running the instrumented copy of internal/locking/workspace_locker.go"}
 
 
@@ -562,10 +637,28 @@ def judge(out, findings, sc, ob, r, counters):
             counters["known:" + cls] += 1
             out.known(findings[cls]["id"], "[%s] %s" % (cls, text))
         else:
-            out.violation("mutual exclusion broken on real processes (%s): %s" % (
+            left = "the run had left the model before"
+            if r["mismatch"] is not None:
+                left += ", step %s (%s): %s" % (r["mismatch"]["step"], r["mismatch"]["event"], "; ".join(r["mismatch"]["diffs"])[:160])
+            out.violation("mutual exclusion broken on real processes: %s (%s)" % (text,
                 "guard class %s not a known finding" % cls if cls else
-                "no guard of Lock.v fired on the prefix" if r["mutex_fail"]["agreed_until_here"] else "the run had left the model before", text),
+                "no guard of Lock.v fired on the prefix" if r["mutex_fail"]["agreed_until_here"] else left),
                 replay_record(sc, ob, r))
+        return
+    if r.get("cancel_fail") is not None:
+        counters["cancel_failures"] = counters.get("cancel_failures", 0) + 1
+        cf = r["cancel_fail"]
+        out.violation("a waiting process whose context was cancelled changed the lock file: %s -> %s (calls after the cancel: %s) "
+                      "at step %d of schedule %s (lock file initially %s)" % (
+                          cf["lock_file_before"][0], cf["lock_file_after"][0], ", ".join(cf["calls_after_cancel"]) or "none announced",
+                          cf["step"], ",".join(sc["tokens"][:cf["step"]]), sc["lock"]), replay_record(sc, ob, r))
+        return
+    if r.get("unlock_fail") is not None:
+        counters["unlock_failures"] = counters.get("unlock_failures", 0) + 1
+        uf = r["unlock_fail"]
+        out.violation("Unlock() of holder %d failed (%s) although the run agreed with Lock.v so far and the lock file was there (%s), "
+                      "step %d of schedule %s" % (uf["process"], uf["error"].replace("\t", " "), uf["model_lock_file_before"],
+                                                  uf["step"], ",".join(sc["tokens"][:uf["step"]])), replay_record(sc, ob, r))
         return
     if r["liveness_fail"] is not None:
         counters["liveness_failures"] += 1
@@ -580,7 +673,8 @@ def judge(out, findings, sc, ob, r, counters):
 def run_all(out, binary, drv, todo, errf, workers):
     findings = {f["class"]: f for f in vlib.known_findings("C10")}
     counters = {"mutex_failures": 0, "liveness_failures": 0, "mismatches": [], "steps": 0, "agreed_steps": 0,
-                "full_agreement": 0, "solo_checked": 0, "unlock_errors": 0,
+                "full_agreement": 0, "solo_checked": 0, "unlock_errors": 0, "cancel_failures": 0, "unlock_failures": 0,
+                "cancel_schedules": 0, "cancels_executed": 0,
                 "known:read-before-write": 0, "known:remove-of-unexamined-inode": 0}
 
     def one(item):
@@ -593,6 +687,9 @@ def run_all(out, binary, drv, todo, errf, workers):
         counters["steps"] += r["steps"]
         counters["agreed_steps"] += r["agreed"]
         counters["unlock_errors"] += r["unlock_errors"]
+        counters["cancels_executed"] += r["cancels"]
+        if any(t[0] == "a" for t in sc["tokens"]):
+            counters["cancel_schedules"] += 1
         if r["mismatch"] is None:
             counters["full_agreement"] += 1
         if sc.get("solo") is not None and r["mutex_fail"] is None:
@@ -727,7 +824,8 @@ def run(out, tier):
         "PIDs are not reused while a lock file naming them exists (the model never reuses a pid)",
         "processes are one-shot: a build locks once and unlocks at most once",
         "file.Write of the PID does not fail and the lock directory exists (lines 44-47 and the ErrNotExist arm of line 41 are outside the model)",
-        "context cancellation while waiting (line 80) is modelled as Crash of the waiter",
+        "the context is consulted only in the select of the wait loop (lines 79-83): a cancellation is the event Cancel at Waiting, "
+        "one that arrives anywhere else is observed at the next Waiting (a SIGKILL anywhere is Crash)",
     ]
     try:
         binary, info = build_contender()
@@ -750,7 +848,7 @@ def run(out, tier):
         evs = [o["ev"] for o in ob[1:]]
         actors = {e[1:] for e in evs}
         contended = any(o["ev"][0] == "c" and o["pcs"][int(o["ev"][1:])][0] == "R" for o in ob[1:])
-        if len(actors) >= 2 and (contended or any(e[0] == "!" for e in evs)):
+        if len(actors) >= 2 and (contended or any(e[0] in "!a" for e in evs)):
             nontrivial.add(sched_key(sc))
         kinds[sc.get("origin", "?")] = kinds.get(sc.get("origin", "?"), 0) + 1
     samples = []
@@ -763,12 +861,14 @@ def run(out, tier):
     out.cov.update({
         "evaluations": len(todo),
         "distinct_nontrivial": len(nontrivial),
-        "rule": "schedules = sequences of (process takes its next file-system call | process is SIGKILLed); 2 contenders: every transition of the "
+        "rule": "schedules = sequences of (process takes its next file-system call | process is SIGKILLed | the context of a process waiting for "
+                "its timer is cancelled); fixed schedules first (the two witnesses, the corpus incl. holder + cancelled waiter + third contender); "
+                "2 contenders: every transition of the "
                 "model's whole reachable graph (it closes at depth 14; states up to inode renaming) with lock file initially absent / empty / garbage / PID of a "
-                "reaped process and at most two crashes (%s); then all but one looping contender unlock or die and that contender runs alone until "
-                "HELD; %s; plus random 3-contender schedules with up to two crashes; non-trivial = at least two processes act and a create hits an existing file or a "
-                "process is killed; distinct = distinct (configuration, schedule)" % (
-                    "all of them", "3 contenders with at most one crash: the whole graph likewise" if tier != "quick" else "3 contenders: random only in this tier"),
+                "reaped process, at most two crashes and any cancels (%s); then all but one looping contender unlock or die and that contender runs alone until "
+                "HELD; %s; plus random 3- and 4-contender schedules with up to two crashes and cancels of waiting processes; non-trivial = at least two "
+                "processes act and a create hits an existing file or a process is killed or cancelled; distinct = distinct (configuration, schedule)" % (
+                    "all of them", "3 contenders with at most one crash and one cancel: the whole graph likewise" if tier != "quick" else "3 contenders: random only in this tier"),
         "samples": samples,
         "states": stats["explorer_states"], "transitions": stats["explorer_transitions"],
         "traces_validated_against_impl": counters["full_agreement"],
@@ -778,7 +878,9 @@ def run(out, tier):
         "mutex_failures_classified": {"read-before-write": counters["known:read-before-write"],
                                       "remove-of-unexamined-inode": counters["known:remove-of-unexamined-inode"]},
         "liveness_checked_schedules": counters["solo_checked"], "liveness_failures": counters["liveness_failures"],
-        "unlock_errors_observed": counters["unlock_errors"],
+        "unlock_errors_observed": counters["unlock_errors"], "unlock_failures": counters["unlock_failures"],
+        "schedules_with_cancel": counters["cancel_schedules"], "cancels_executed": counters["cancels_executed"],
+        "cancel_oracle_failures": counters["cancel_failures"],
         "input_distribution": kinds, "inprocess_tie": True, "instrumentation": info,
         "explorer_schedules_2proc": stats["explorer_schedules_2proc"], "exhaustive": bool(stats.get("exhaustive_2proc")),
     })
@@ -792,13 +894,18 @@ def replay(out, path):
     ob = model_runs(drv, [sc])[0]
     with open(os.path.join(vlib.scratch(), "contenders.err"), "ab") as errf:
         r = replay_schedule(binary, sc, ob, errf, solo=sc.get("solo"))
+    print("schedule: n=%d dead=%s lock file initially %s solo=%s" % (sc["n"], sc["dead"], sc["lock"], sc.get("solo")))
+    print("tokens:   %s   (s<p> next call / wake / unlock of p, !<p> SIGKILL p, a<p> cancel the waiting p)" % ",".join(sc["tokens"]))
+    print("model:    %s" % ",".join(o["ev"] + ("" if o["en"] else "(disabled)") for o in ob[1:]))
     for t in r["trace"]:
-        print("step %2d %-4s real %s | model %s" % (t["step"], t["event"], json.dumps(t["real"]), json.dumps(t["model"])))
+        print("step %-14s %-4s real %s | model %s" % (t["step"], t["event"], json.dumps(t["real"]), json.dumps(t["model"])))
     print("mismatch:", r["mismatch"])
     print("mutex_fail:", r["mutex_fail"])
     print("liveness_fail:", r["liveness_fail"])
+    print("cancel_fail:", r["cancel_fail"])
+    print("unlock_fail:", r["unlock_fail"])
     findings = {f["class"]: f for f in vlib.known_findings("C10")}
-    counters = {"mutex_failures": 0, "liveness_failures": 0, "mismatches": [],
+    counters = {"mutex_failures": 0, "liveness_failures": 0, "mismatches": [], "cancel_failures": 0, "unlock_failures": 0,
                 "known:read-before-write": 0, "known:remove-of-unexamined-inode": 0}
     judge(out, findings, sc, ob, r, counters)
     if counters["mismatches"] and not out.violations:
